@@ -28,7 +28,7 @@ CARRIERS = ["dt64ns", "dt64s", "epoch-int", "epoch-float", "epoch-list", "dtinde
 
 
 def roc_case(ctx, x, t, thr, carrier, tag) -> None:
-    kw = {"inp": gen.carried(ctx.rng, x, poisons=(0.0, 1e6, -1e6)), "tinp": gen.times(t, carrier), "threshold": thr}
+    kw = {"inp": gen.carried(ctx.rng, x, poisons=(0.0, 1e6, -1e6)), "tinp": gen.times(t, carrier), "threshold": gen.ptype(ctx.rng, thr)}
     o, _ = client.expect(ctx, "C10", "qartod.rate_of_change_test", kw,
                          lambda: models.rate_of_change(x, t, thr),
                          logical={"x": x, "t": t, "threshold": thr, "time_carrier": carrier}, hist="rate_of_change")
@@ -42,7 +42,7 @@ def roc_case(ctx, x, t, thr, carrier, tag) -> None:
 def speed_case(ctx, lon, lat, t, st, ft, carrier, tag) -> None:
     kw = {"lon": gen.carried(ctx.rng, lon, poisons=(0.0, 120.0, -60.0)), "lat": gen.carried(ctx.rng, lat, poisons=(0.0, 80.0, -45.0)),
           "tinp": gen.times(t, carrier),
-          "suspect_threshold": st, "fail_threshold": ft}
+          "suspect_threshold": gen.ptype(ctx.rng, st), "fail_threshold": gen.ptype(ctx.rng, ft)}
     o, _ = client.expect(ctx, "C10", "argo.speed_test", kw,
                          lambda: models.speed(lon, lat, t, st, ft),
                          logical={"lon": lon, "lat": lat, "t": t, "suspect_threshold": st, "fail_threshold": ft,
@@ -94,7 +94,7 @@ def run(ctx) -> None:
                 roc_case(ctx, x, t, thr, rng.choice(CARRIERS), "enum")
     ctx.exhaustive.append("rate_of_change_test: all 2^n missing placements for n<=5")
     for _ in range(ctx.pick(1200, 8000)):
-        n = rng.choice([2, 3, 6, 9, 30])
+        n = rng.choice([2, 3, 6, 9, 30, 30, 120, ctx.pick(400, 2000)])
         x = gen.series(rng, n)
         t = (gen.irregular(rng, n, steps=(1, 2, 3, 7, 49, 60, 61, 98, 103, 107, 161, 187, 900, 3600, 86400, 200000))
              if rng.random() < 0.7 else gen.regular(n, rng.choice([1, 49, 60, 103, 3600])))
@@ -154,7 +154,7 @@ def run(ctx) -> None:
             speed_case(ctx, lon, lat, t, st, ft, rng.choice(CARRIERS), f"enum-{kind}")
     ctx.exhaustive.append("speed_test: all 4^n lon/lat missing placements for n<=3 (4 thorough)")
     for _ in range(ctx.pick(500, 4000)):
-        n = rng.choice([2, 3, 5, 8, 20])
+        n = rng.choice([2, 3, 5, 8, 20, 20, 101])
         kind, lon, lat = track(n)
         for k in range(n):
             r = rng.random()
